@@ -27,15 +27,18 @@ def C05_full : Prop :=
     (∀ n k, s.nodeProp n k = s'.nodeProp n k) ∧ (∀ n k, (s.nodeProps n).lookup k = (s'.nodeProps n).lookup k) ∧
     (∀ e k, s.edgeProp e k = s'.edgeProp e k)
 
-/-! `compactSafe s` (Proofs/EngineCompactMap): the runs of `s` hold no node or edge tombstone and no
-    property removal, and the store is empty while there is no root. -/
+/-! `compactSafe c s` (Proofs/EngineCompactE, decidable): the runs of `s` hold no node tombstone and no
+    property removal; no relationship tombstoned by a run is held by an older segment (`segsClear`: the
+    tombstones of relationships that live in the runs themselves are fine — build_segment_from_runs
+    applies them exactly like the read path, fix 0624086); the store is empty while there is no root. -/
 
 /-- **C05 (proved part, state level)**: from EVERY engine state that is `compactSafe` — any number of
-    runs with any edges (parallel, self loops, none at all) and any properties, any older segments,
-    any store — `compact` changes neither node enumeration, nor outgoing / incoming neighbours with
-    any type filter (as multisets; a panicking older segment panics before and after), nor any
-    single-key node / relationship property read, nor labels, external ids or external-id lookup. -/
-theorem C05_partial (s : Engine) (hs : compactSafe s = true) :
+    runs with any edges (parallel, self loops, none at all), any properties, edge tombstones that hit
+    only run-resident relationships, any older segments, any store — `compact` changes neither node
+    enumeration, nor outgoing / incoming neighbours with any type filter (as multisets; a panicking older
+    segment panics before and after), nor any single-key node / relationship property read, nor labels,
+    external ids or external-id lookup. -/
+theorem C05_partial (s : Engine) (hs : compactSafe Cfg.current s = true) :
     let s' := s.compact Cfg.current
     s'.nodes = s.nodes ∧ s'.nodesSnap = s.nodesSnap ∧
     (∀ n rel, PermOpt (s'.neighbors n rel) (s.neighbors n rel)) ∧
@@ -43,21 +46,13 @@ theorem C05_partial (s : Engine) (hs : compactSafe s = true) :
     (∀ n k, s'.nodeProp n k = s.nodeProp n k) ∧ (∀ e k, s'.edgeProp e k = s.edgeProp e k) ∧
     s'.nodeLabels = s.nodeLabels ∧ s'.resolveExternal = s.resolveExternal ∧
     s'.lookupInternal = s.lookupInternal ∧ s'.interner = s.interner := by
-  simp only [compactSafe, Bool.and_eq_true, List.all_eq_true, List.isEmpty_iff, Bool.or_eq_true,
-    bne_iff_ne, ne_eq] at hs
-  obtain ⟨hruns, hroot⟩ := hs
-  have hnt : NoTombs s.runs := fun r hr => ⟨(hruns r hr).1.1.1, (hruns r hr).1.1.2⟩
-  have hnd : ∀ r ∈ s.runs, r.nDel = [] := fun r hr => (hruns r hr).1.2
-  have hed : ∀ r ∈ s.runs, r.eDel = [] := fun r hr => (hruns r hr).2
-  have hroot' : s.propsRoot = 0 → s.store = [] := by
-    intro h0; rcases hroot with h | h
-    · exact absurd h0 h
-    · exact h
+  obtain ⟨hnt, hnd, hed, hroot', hclear⟩ := compactSafe_unpack _ s hs
   have hid : (s.compact Cfg.current).idmap = s.idmap ∧ (s.compact Cfg.current).interner = s.interner := by
     unfold Engine.compact; split <;> exact ⟨rfl, rfl⟩
-  refine ⟨(compact_nodes _ s hnt).1, (compact_nodes _ s hnt).2, compact_neighbors _ s hnt,
-    compact_incoming _ s hnt (Or.inl csr_guard_present), compact_nodeProp _ s hnd hroot',
-    compact_edgeProp _ s hed hroot', ?_, ?_, ?_, hid.2⟩
+  refine ⟨(compact_nodes_E _ s hnt).1, (compact_nodes_E _ s hnt).2,
+    compact_neighbors_E _ s hnt compact_own_tombstones_last (segsClear_out hclear),
+    compact_incoming_E _ s hnt compact_own_tombstones_last csr_guard_present (segsClear_in hclear),
+    compact_nodeProp _ s hnd hroot', compact_edgeProp _ s hed hroot', ?_, ?_, ?_, hid.2⟩
   · funext n; unfold Engine.nodeLabels; rw [hid.1]
   · funext n; unfold Engine.resolveExternal; rw [hid.1]
   · funext x; unfold Engine.lookupInternal; rw [hid.1]
@@ -72,10 +67,10 @@ theorem whole_map_eq_single_key (s : Engine) :
 
 /-- **C05 (proved part, whole-map reads)**: from every `compactSafe` state `node_properties` and
     `edge_properties` (the whole maps) answer the same value for every key before and after `compact`. -/
-theorem C05_partial_whole_map (s : Engine) (hs : compactSafe s = true) :
+theorem C05_partial_whole_map (s : Engine) (hs : compactSafe Cfg.current s = true) :
     (∀ n k, ((s.compact Cfg.current).nodeProps n).lookup k = (s.nodeProps n).lookup k) ∧
     (∀ e k, ((s.compact Cfg.current).edgeProps e).lookup k = (s.edgeProps e).lookup k) := by
-  obtain ⟨_, hnd, hed, hroot⟩ := compactSafe_unpack s hs
+  obtain ⟨_, hnd, hed, hroot, _⟩ := compactSafe_unpack _ s hs
   exact ⟨compact_nodeProps _ s hnd hroot, compact_edgeProps _ s hed hroot⟩
 
 /-! ### history level: compactions at arbitrary positions
@@ -106,7 +101,7 @@ def SameReads (s u : Engine) : Prop :=
 theorem C05_partial_hist (h : List Op) (hs : compactHistSafe Cfg.current {} h = true) :
     ∃ s u, Storage.run Cfg.current h = .ok s ∧ Storage.run Cfg.current (dropCompactions h) = .ok u ∧
       SameReads s u := by
-  obtain ⟨s, u, h1, h2, hE⟩ := hist_eqv Cfg.current csr_guard_present h {} {} (Eqv.refl _ _) rfl hs
+  obtain ⟨s, u, h1, h2, hE⟩ := hist_eqv Cfg.current csr_guard_present compact_own_tombstones_last h {} {} (Eqv.refl _ _) rfl hs
   exact ⟨s, u, h1, h2, hE.reads⟩
 
 /-- **C05 in the shape of `C05_full`**: inserting one compaction anywhere in a history changes no later
@@ -116,8 +111,8 @@ theorem C05_partial_insert (h₁ h₂ : List Op)
     (hs' : compactHistSafe Cfg.current {} (h₁ ++ h₂) = true) :
     ∃ s s', Storage.run Cfg.current (h₁ ++ [.compact] ++ h₂) = .ok s ∧
       Storage.run Cfg.current (h₁ ++ h₂) = .ok s' ∧ SameReads s s' := by
-  obtain ⟨s, u, h1, h2, hE⟩ := hist_eqv Cfg.current csr_guard_present _ {} {} (Eqv.refl _ _) rfl hs
-  obtain ⟨s', u', h1', h2', hE'⟩ := hist_eqv Cfg.current csr_guard_present _ {} {} (Eqv.refl _ _) rfl hs'
+  obtain ⟨s, u, h1, h2, hE⟩ := hist_eqv Cfg.current csr_guard_present compact_own_tombstones_last _ {} {} (Eqv.refl _ _) rfl hs
+  obtain ⟨s', u', h1', h2', hE'⟩ := hist_eqv Cfg.current csr_guard_present compact_own_tombstones_last _ {} {} (Eqv.refl _ _) rfl hs'
   rw [dropCompactions_insert] at h2
   have : u = u' := by rw [h2] at h2'; cases h2'; rfl
   subst this
@@ -148,15 +143,17 @@ def hSafe : List Op :=
     .tx [.edge 0 R 1, .edge 0 R 1, .edge 1 R 1, .nprop 1 K 2] true,
     .tx [.nprop 1 K 3, .eprop 0 R 1 K 4] true ]
 
-example : ∃ s, Storage.run Cfg.current hSafe = .ok s ∧ compactSafe s = true ∧ s.runs.length = 2 ∧
+example : ∃ s, Storage.run Cfg.current hSafe = .ok s ∧ compactSafe Cfg.current s = true ∧ s.runs.length = 2 ∧
     s.segs.length = 1 := ⟨_, rfl, by decide, by decide, by decide⟩
 
 /-- non-vacuity of the history-level statements: two compactions, transactions between and after -/
-def hSafe2 : List Op := hSafe ++ [ .compact, .tx [.node 12 none, .edge 2 R 0, .nprop 2 K 7] true ]
+def hSafe2 : List Op := hSafe ++ [ .compact, .tx [.node 12 none, .edge 2 R 0, .nprop 2 K 7] true,
+  .tx [.tombEdge 2 R 0, .edge 2 R 0, .edge 2 R 1] true, .tx [.tombEdge 2 R 1] true, .compact,
+  .tx [.edge 0 R 2] true ]
 
 example : compactHistSafe Cfg.current {} hSafe2 = true := by decide
 example : compactHistSafe Cfg.current {} (dropCompactions hSafe2) = true := by decide
-example : (dropCompactions hSafe2).length + 2 = hSafe2.length := by decide
+example : (dropCompactions hSafe2).length + 3 = hSafe2.length := by decide
 
 /-! ### counterexamples on the CURRENT tree (known findings; witnesses in corpus/engine_compact/) -/
 
